@@ -33,7 +33,7 @@ type Case struct {
 func TestMain(m *testing.M) {
 	h.Setup("C17",
 		"a sequence of 1-8 parentheses (nesting depth <= 2), each matching its own distinct token, randomly unnamed / named / explicitly numbered (sparse, up to 40) / duplicate-named / non-capturing, with (?n) / (?-n) switches and the ExplicitCapture option, x modes {default, MaintainCaptureOrder, ECMAScript, RE2 with (?P<name>)}; one evaluation = one pattern: the harness's own implementation of the documented numbering rule predicts number and name of every parenthesis; GetGroupNumbers/GetGroupNames, both lookup directions, Groups() order, GroupByNumber, GroupByName, backreferences by number and name, and $n / ${name} replacements must all designate the predicted group (observed through the distinct token each group captures); non-trivial = at least two naming kinds are mixed, or numbers are sparse, or a name is duplicated, or ExplicitCapture is toggled; distinct = hash of the pattern and mode",
-		map[string]float64{"mixed-kinds": 0.4, "sparse": 0.15, "duplicate-name": 0.08, "explicit-capture": 0.15, "mode=captureorder": 0.15, "mode=ecma": 0.1, "mode=re2": 0.1, "nested": 0.2},
+		map[string]float64{"mixed-kinds": 0.4, "sparse": 0.15, "duplicate-name": 0.08, "explicit-capture": 0.15, "mode=captureorder": 0.08, "mode=ecma": 0.06, "mode=re2": 0.1, "nested": 0.2},
 		"explicitly numbered groups are not generated under MaintainCaptureOrder / ECMAScript (the documented rule says pure pattern order there and does not say what an explicit number means)",
 		"duplicate names are not generated under ECMAScript (rejected by the parser, as in ECMAScript)")
 	h.Ceiling("compile-error", 0.01)
